@@ -103,6 +103,26 @@ pub struct PanicInfo {
     pub location: String,
 }
 
+impl PanicInfo {
+    /// Violation class of a panic: the source file plus a slug of the message (not the line
+    /// number, which moves with every unrelated edit above it).
+    pub fn class(&self) -> String {
+        let file = self.location.rsplit_once(':').map(|(f, _)| f).unwrap_or(&self.location);
+        let mut slug = String::new();
+        let mut last_dash = false;
+        for c in self.message.chars().take(70) {
+            if c.is_ascii_alphanumeric() {
+                slug.push(c.to_ascii_lowercase());
+                last_dash = false;
+            } else if !last_dash {
+                slug.push('-');
+                last_dash = true;
+            }
+        }
+        format!("panic@{file}:{}", slug.trim_matches('-'))
+    }
+}
+
 static LAST_PANIC: Mutex<Option<PanicInfo>> = Mutex::new(None);
 
 pub fn install_panic_hook() {
